@@ -14,6 +14,20 @@ Conventions of the output
     value of that parameter.
   * loops: for i in range(..) -> for_range lo hi body st, body emitted as its own Definition.
     while -> while_loop fuel cond body st (fuel is an extra first parameter `fuel : nat`).
+  * object classes (OBJ_CLASSES: EoReader, EoWriter): a record <C>_st of the fields assigned in __init__,
+    <C>_init, and one function per member, each its own unit in the report:
+      method / property getter / setter (<C>_set_<p>):  self -> args -> <C>_st * T          (cannot raise)
+                                                         self -> args -> <C>_st * res T      (can raise; the state
+                                                         component is the state at the raise)
+      @staticmethod: a plain function <C>_<name>.
+    Which of the two shapes is decided by trial (NeedsMonadic), not by a syntactic estimate.  Members are emitted
+    in dependency order; calls of members of self thread the state (every field is rebound from the callee's
+    result); a field read that precedes such a call in the same expression is snapshotted (seq).  Optional[int]
+    parameters are `option Z`, refined by `if x is None:`.  A bytearray parameter mutated in place (and never
+    rebound) by a method returning None is returned as the result and rebound at the call site.  The extra
+    builtins (cp1252 codec, bytearray.append, bytes.find, slice assignment) live in coq/Prelude/PyStr.v.
+    Side conditions (index in range, slice bounds >= 0, bytearray(n) with n >= 0) are listed in a comment at the
+    top of the generated file and in ModuleTranslator.side.
 """
 import ast
 import sys
@@ -46,11 +60,23 @@ def ann_type(ann):
         return U
     if isinstance(ann, ast.Constant) and isinstance(ann.value, str):
         return ('obj', ann.value)
+    if (isinstance(ann, ast.Subscript) and isinstance(ann.value, ast.Name) and ann.value.id == 'Optional'
+            and isinstance(ann.slice, ast.Name) and ann.slice.id in ('int', 'bool')):
+        return ('opt', ann_type(ann.slice))
     _bad(ann)
 
 
 def _bad(node):
     raise Unsupported(f"annotation {ast.dump(node)}", node)
+
+
+class NeedsMonadic(Unsupported):
+    """Raised while translating a unit as non-raising when an exception path shows up (the unit is then
+    retried as raising)."""
+
+
+def _self_field(n):
+    return isinstance(n, ast.Attribute) and isinstance(n.value, ast.Name) and n.value.id == 'self'
 
 
 def cname(name):
@@ -73,6 +99,8 @@ class FuncInfo:
         self.mutates = mutates    # index of in-place mutated param or None
         self.needs_fuel = needs_fuel
         self.draws = draws        # consumes random draws: extra param `draws : list Z`, returns (.., draws)
+        self.defaults = None      # per-parameter default expression (ast) or None
+        self.kind = 'function'    # object classes: 'method' | 'getter' | 'setter' | 'static'
 
 
 class Env:
@@ -126,6 +154,14 @@ def assigned_vars(stmts):
                 if isinstance(c.func, ast.Attribute) and isinstance(c.func.value, ast.Name):
                     if c.func.attr in ('reverse', 'append', 'extend'):
                         add(c.func.value.id)
+                    elif c.func.value.id == 'self':
+                        # self.m(x, ..): m may mutate its first argument in place (resolved by the caller)
+                        for i_, a_ in enumerate(c.args):
+                            if isinstance(a_, ast.Name):
+                                add(('maybe', 'self.' + c.func.attr, a_.id, i_))
+                elif (isinstance(c.func, ast.Attribute) and _self_field(c.func.value)
+                      and c.func.attr in ('reverse', 'append', 'extend')):
+                    add('self.' + c.func.value.attr)
                 elif isinstance(c.func, ast.Name) and c.args and isinstance(c.args[0], ast.Name):
                     add(('maybe', c.func.id, c.args[0].id))
             self.generic_visit(n)
@@ -135,9 +171,13 @@ def assigned_vars(stmts):
                 add(t.id)
             elif isinstance(t, ast.Subscript) and isinstance(t.value, ast.Name):
                 add(t.value.id)
+            elif isinstance(t, ast.Subscript) and _self_field(t.value):
+                add('self.' + t.value.attr)
             elif isinstance(t, ast.Tuple):
                 for e in t.elts:
                     self._t(e)
+            elif _self_field(t):
+                add('self.' + t.attr)
             elif isinstance(t, ast.Attribute):
                 pass
             else:
@@ -193,6 +233,19 @@ class ModuleTranslator:
         self.requires = []
         self.loop_counter = 0
         self.cur = None
+        self.obj = None                     # object class being translated (see obj_class)
+        self.needs_pystr = False            # output uses Prelude.PyStr
+        self.side = []                      # side conditions assumed by the translation: (unit, line, text)
+        self.imported = set()               # names bound by `from m import a, b`
+        for n_ in self.tree.body:
+            if isinstance(n_, ast.ImportFrom):
+                self.imported.update(a_.asname or a_.name for a_ in n_.names)
+
+    def note_side(self, node, text):
+        unit = self.cur['name'] if self.cur else '?'
+        item = (unit, getattr(node, 'lineno', None), text)
+        if item not in self.side:
+            self.side.append(item)
 
     # -------------------------------------------------------------------- module level
     def ordered_body(self):
@@ -263,6 +316,8 @@ class ModuleTranslator:
         # constructor calls (sequence_start), handled by treating constructors as tuples;
         # (b) "simple state classes" (packet_sequencer): __init__ assigning self._x, methods.
         cls = node.name
+        if cls in OBJ_CLASSES:
+            return self.obj_class_unit(node)
         statics = [n for n in node.body if isinstance(n, ast.FunctionDef)
                    and any(isinstance(d, ast.Name) and d.id == 'staticmethod' for d in n.decorator_list)]
         init = [n for n in node.body if isinstance(n, ast.FunctionDef) and n.name == '__init__']
@@ -345,8 +400,360 @@ class ModuleTranslator:
         unpack = ' '.join(f"let {vname('self.' + f)} := {cls}_{f} self in" for f, _ in fields)
         self.out.append(f"Definition {cls}_{node.name} (self : {rec}) {ps} :=\n  {unpack}\n  {code}.")
 
+    # -------------------------------------------------------------------- object classes
+    # EoReader / EoWriter: a record of the `self.x` fields assigned in __init__, and one Coq function per
+    # method / property / setter:  self -> args -> self' * result   (result : res T when the member can
+    # raise; the state component is then the state at the moment of the raise).  @staticmethods become
+    # plain functions.  Every member is its own unit in the report.
+    def obj_class_unit(self, node):
+        cls = node.name
+        save = len(self.out)
+        try:
+            members = self.obj_class_head(node)
+            self.units[cls] = 'ok'
+        except Unsupported as e:
+            del self.out[save:]
+            self.obj = None
+            self.units[cls] = f"Unsupported: {e}"
+            return
+        for kind, name, n in members:
+            unit = f"{cls}.{name}" + ('.setter' if kind == 'setter' else '')
+            save = len(self.out)
+            side_save = len(self.side)
+            try:
+                self.obj_member(n, kind)
+                self.units[unit] = 'ok'
+            except Unsupported as e:
+                del self.out[save:]
+                del self.side[side_save:]
+                self.units[unit] = f"Unsupported: {e}"
+        self.obj = None
+        self.cur = None
+
+    def member_kind(self, n):
+        ds = n.decorator_list
+        if not ds:
+            return 'method'
+        if len(ds) == 1:
+            d = ds[0]
+            if isinstance(d, ast.Name) and d.id == 'staticmethod':
+                return 'static'
+            if isinstance(d, ast.Name) and d.id == 'property':
+                return 'getter'
+            if isinstance(d, ast.Attribute) and d.attr == 'setter' and isinstance(d.value, ast.Name) and d.value.id == n.name:
+                return 'setter'
+        raise Unsupported("decorator", n)
+
+    def obj_class_head(self, node):
+        """Record + init; returns the members in dependency order."""
+        cls = node.name
+        for b in node.bases:
+            if not (isinstance(b, ast.Name) and b.id == 'object'):
+                raise Unsupported("base class", node)
+        if node.keywords or node.decorator_list:
+            raise Unsupported("class keywords/decorators", node)
+        init, members = None, []
+        for n in node.body:
+            if isinstance(n, ast.Expr) and isinstance(n.value, ast.Constant) and isinstance(n.value.value, str):
+                continue
+            if isinstance(n, ast.AnnAssign) and n.value is None and isinstance(n.target, ast.Name):
+                continue        # `_x: T` declarations carry no behaviour
+            if isinstance(n, ast.FunctionDef):
+                if n.name == '__init__':
+                    init = n
+                else:
+                    members.append((self.member_kind(n), n.name, n))
+                continue
+            raise Unsupported(f"class-level {type(n).__name__}", n)
+        if init is None:
+            raise Unsupported("class without __init__", node)
+        a = init.args
+        if a.vararg or a.kwarg or a.kwonlyargs or a.posonlyargs or a.defaults or not a.args or a.args[0].arg != 'self':
+            raise Unsupported("__init__ signature", init)
+        rec = f"{cls}_st"
+        self.cur = dict(monadic=False, mut=None, ret=None, fuel=False, name=f"{cls}_init", method=None, draws=False)
+        self.obj = dict(cls=cls, rec=rec, fields=[], kinds={}, pack=None, init=None, members={}, names=set())
+        env, params = Env(), []
+        for p in a.args[1:]:
+            t = ann_type(p.annotation)
+            env.set(p.arg, t)
+            params.append((p.arg, t))
+        fields, inits, kinds = [], [], {}
+        for s in init.body:
+            if isinstance(s, ast.Expr) and isinstance(s.value, ast.Constant):
+                continue
+            if not (isinstance(s, ast.Assign) and len(s.targets) == 1 and _self_field(s.targets[0])):
+                raise Unsupported("__init__ statement", s)
+            f = s.targets[0].attr
+            if f in kinds:
+                raise Unsupported("field assigned twice in __init__", s)
+            binds, code, ty = self.expr(s.value, env)
+            if binds or ty not in (Z, B, L):
+                raise Unsupported("field initialiser", s)
+            v = s.value
+            kinds[f] = v.func.id if isinstance(v, ast.Call) and isinstance(v.func, ast.Name) else None
+            if ty == L and kinds[f] not in ('bytearray', 'memoryview', 'bytes'):
+                raise Unsupported("sequence field must be built by bytearray()/memoryview()/bytes() (aliasing)", s)
+            fields.append((f, ty))
+            inits.append(code)
+        names = {rec, f"mk_{rec}", f"{cls}_init"} | {f"{cls}_{f}" for f, _ in fields}
+        if len(names) != 3 + len(fields):
+            raise Unsupported("name clash among fields", node)
+        self.out.append(f"Record {rec} := mk_{rec} {{ " + '; '.join(f"{cls}_{f} : {coq_ty(t)}" for f, t in fields) + " }.")
+        ps = ' '.join(f"({vname(p)} : {coq_ty(t)})" for p, t in params)
+        self.out.append(f"Definition {cls}_init {ps} : {rec} :=\n  mk_{rec} " + ' '.join(f"({c})" for c in inits) + ".")
+        init_info = FuncInfo(f"{cls}_init", params, ('cls', cls), False, None, False)
+        pack = f"mk_{rec} " + ' '.join(vname('self.' + f) for f, _ in fields)
+        self.obj = dict(cls=cls, rec=rec, fields=fields, kinds=kinds, pack=pack, init=init_info, members={}, names=names,
+                        member_names={(('set', nm) if k == 'setter' else nm) for k, nm, _ in members})
+        if len(self.obj['member_names']) != len(members):
+            raise Unsupported("member defined twice", node)
+        # dependency order (Coq needs callees first); recursion is not supported
+        keyed = {(('set', nm) if k == 'setter' else nm): (k, nm, n) for k, nm, n in members}
+
+        def deps(n):
+            out = []
+            for c in ast.walk(n):
+                if _self_field(c) or (isinstance(c, ast.Attribute) and isinstance(c.value, ast.Name) and c.value.id == cls):
+                    key = ('set', c.attr) if isinstance(c.ctx, ast.Store) else c.attr
+                    if key in keyed and key not in out:
+                        out.append(key)
+            return out
+        order, state = [], {}
+
+        def visit(key):
+            if state.get(key) == 'done':
+                return
+            if state.get(key) == 'open':
+                return          # recursion: the callee is not yet translated when the caller is -> rejected there
+            state[key] = 'open'
+            for d in deps(keyed[key][2]):
+                visit(d)
+            state[key] = 'done'
+            order.append(keyed[key])
+        for k, nm, n in members:
+            visit(('set', nm) if k == 'setter' else nm)
+        return order
+
+    def obj_member(self, node, kind):
+        o = self.obj
+        cls, rec = o['cls'], o['rec']
+        a = node.args
+        if a.vararg or a.kwarg or a.kwonlyargs or a.posonlyargs:
+            raise Unsupported("varargs", node)
+        pyname = node.name
+        coqname = f"{cls}_set_{pyname}" if kind == 'setter' else f"{cls}_{pyname}"
+        if coqname in o['names']:
+            raise Unsupported(f"Coq name clash {coqname}", node)
+        if kind == 'static':
+            save = len(self.out)
+            side_save = len(self.side)
+            for monadic in (False, True):
+                try:
+                    self.function(node, f"{cls}.{pyname}", coqname, monadic=monadic)
+                    break
+                except NeedsMonadic:
+                    del self.out[save:]
+                    del self.side[side_save:]
+                    if monadic:
+                        raise
+            fi = self.funcs.pop(f"{cls}.{pyname}")
+            fi.kind = 'static'
+            o['members'][pyname] = fi
+            o['names'].add(coqname)
+            return
+        if not a.args or a.args[0].arg != 'self':
+            raise Unsupported("method without self", node)
+        if kind == 'getter' and len(a.args) != 1 or kind == 'setter' and len(a.args) != 2:
+            raise Unsupported("property signature", node)
+        params, defaults = [], []
+        ndef = len(a.defaults)
+        for i, p in enumerate(a.args[1:]):
+            t = ann_type(p.annotation)
+            if p.arg == 'self' or p.arg.startswith('self_'):
+                raise Unsupported("parameter name", node)
+            params.append((p.arg, t))
+            j = i - (len(a.args) - 1 - ndef)
+            defaults.append(a.defaults[j] if j >= 0 else None)
+        body = [s for s in node.body if not (isinstance(s, ast.Expr) and isinstance(s.value, ast.Constant) and isinstance(s.value.value, str))]
+        ret_ann = node.returns
+        returns_none = not any(isinstance(n, ast.Return) and n.value is not None for s in body for n in ast.walk(s))
+        if returns_none and ret_ann is not None and not (isinstance(ret_ann, ast.Constant) and ret_ann.value is None):
+            raise Unsupported("no value returned but annotated to return one", node)
+        # a bytearray parameter mutated in place (and never rebound): its final value is the result
+        mut = None
+        pnames = [p for p, t in params if t == L]
+        mutated, rebound = self.param_effects(body, pnames)
+        if mutated & rebound:
+            raise Unsupported("parameter both mutated in place and rebound", node)
+        if mutated:
+            if len(mutated) > 1 or not returns_none:
+                raise Unsupported("in-place parameter mutation with a return value", node)
+            mut = [p for p, _ in params].index(next(iter(mutated)))
+        save = len(self.out)
+        side_save = len(self.side)
+        for monadic in (False, True):
+            try:
+                code = self.obj_method_body(node, body, coqname, params, mut, returns_none, monadic)
+                break
+            except NeedsMonadic:
+                del self.out[save:]
+                del self.side[side_save:]
+                if monadic:
+                    raise
+        rt = self.cur['ret']
+        if rt is None:
+            raise Unsupported("no return type", node)
+        ps = ''.join(f" ({vname(p)} : {coq_ty(t)})" for p, t in params)
+        rty = f"res ({coq_ty(rt)})" if monadic else coq_ty(rt)
+        self.out.append(f"Definition {coqname} (self : {rec}){ps} : {rec} * {rty} :=\n"
+                        f"  let '({o['pack']}) := self in\n  {code}.")
+        fi = FuncInfo(coqname, params, rt, monadic, mut, False)
+        fi.kind = kind
+        fi.defaults = defaults
+        o['members'][('set', pyname) if kind == 'setter' else pyname] = fi
+        o['names'].add(coqname)
+
+    def obj_method_body(self, node, body, coqname, params, mut, returns_none, monadic):
+        o = self.obj
+        env = Env()
+        for f, t in o['fields']:
+            env.set('self.' + f, t)
+        for p, t in params:
+            env.set(p, t)
+        self.loop_counter = 0
+        self.cur = dict(monadic=monadic, mut=(params[mut][0] if mut is not None else None), ret=None, fuel=False,
+                        name=coqname, method=None, obj=True, precise=True, draws=False, returns_none=returns_none,
+                        noexit=0)
+
+        def final(env_):
+            if not returns_none:
+                raise Unsupported("method may fall off its end without returning a value", node)
+            v = vname(self.cur['mut']) if self.cur['mut'] else 'tt'
+            self.note_ret(L if self.cur['mut'] else U)
+            return self.ret_code(v)
+        return self.stmts(body, env, final)
+
+    def param_effects(self, body, pnames):
+        """(mutated in place, rebound) among the parameter names pnames."""
+        mutated, rebound = set(), set()
+        for s in body:
+            for n in ast.walk(s):
+                targets = []
+                if isinstance(n, ast.Assign):
+                    targets = n.targets
+                elif isinstance(n, (ast.AugAssign, ast.AnnAssign)):
+                    targets = [n.target]
+                for t in targets:
+                    for t_ in (t.elts if isinstance(t, ast.Tuple) else [t]):
+                        if isinstance(t_, ast.Name) and t_.id in pnames:
+                            rebound.add(t_.id)
+                        if isinstance(t_, ast.Subscript) and isinstance(t_.value, ast.Name) and t_.value.id in pnames:
+                            mutated.add(t_.value.id)
+                if isinstance(n, ast.Call):
+                    f = n.func
+                    if isinstance(f, ast.Attribute) and isinstance(f.value, ast.Name) and f.value.id in pnames:
+                        if f.attr not in ('decode', 'find', 'copy'):
+                            mutated.add(f.value.id)
+                    fi = None
+                    if isinstance(f, ast.Name):
+                        fi = self.funcs.get(f.id)
+                    elif _self_field(f) and self.obj:
+                        fi = self.obj['members'].get(f.attr)
+                    if fi is not None and fi.mutates is not None and len(n.args) > fi.mutates:
+                        x = n.args[fi.mutates]
+                        if isinstance(x, ast.Name) and x.id in pnames:
+                            mutated.add(x.id)
+        return mutated, rebound
+
+    def ret_code(self, v):
+        """Code of `return v` in the current unit."""
+        if self.cur.get('obj'):
+            pack = self.obj['pack']
+            return f"({pack}, Ok ({v}))" if self.cur['monadic'] else f"({pack}, {v})"
+        return self.wrap_ret(v)
+
+    def need_monadic(self, node=None):
+        if not self.cur['monadic'] and self.cur.get('precise'):
+            raise NeedsMonadic("exception path in a unit translated as non-raising", node)
+        if self.cur.get('obj') and self.cur.get('noexit'):
+            raise Unsupported("raising operation inside a joined branch or loop body", node)
+
+    def self_effects(self, stmts):
+        """Do the statements call a (non-static) member of self?  (Such a call may change any field.)"""
+        if not self.obj:
+            return False
+        for s in stmts:
+            for n in ast.walk(s):
+                if _self_field(n):
+                    key = ('set', n.attr) if isinstance(n.ctx, ast.Store) else n.attr
+                    fi = self.obj['members'].get(key)
+                    if fi is not None and fi.kind != 'static':
+                        return True
+                    if fi is None and n.attr not in [f for f, _ in self.obj['fields']]:
+                        return True     # unknown member: be conservative (it will be rejected later anyway)
+        return False
+
+    def stmts_may_raise(self, stmts):
+        """Conservative: may executing stmts raise (in an object-class unit)?"""
+        for s in stmts:
+            for n in ast.walk(s):
+                if isinstance(n, ast.Raise):
+                    return True
+                if isinstance(n, ast.Call):
+                    f = n.func
+                    if isinstance(f, ast.Name):
+                        if f.id in ('len', 'min', 'max', 'memoryview', 'range'):
+                            continue
+                        if f.id == 'bytearray':
+                            continue
+                        if f.id in self.funcs and not self.funcs[f.id].may_raise:
+                            continue
+                        if self.obj and f.id == self.obj['cls']:
+                            continue
+                        return True
+                    if isinstance(f, ast.Attribute):
+                        if _self_field(f) and self.obj:
+                            fi = self.obj['members'].get(f.attr)
+                            if fi is not None and not fi.may_raise:
+                                continue
+                            return True
+                        if f.attr in ('decode', 'find', 'copy', 'extend', 'reverse'):
+                            continue
+                        return True
+                    return True
+                if _self_field(n) and self.obj and isinstance(n.ctx, (ast.Load, ast.Store)):
+                    key = ('set', n.attr) if isinstance(n.ctx, ast.Store) else n.attr
+                    fi = self.obj['members'].get(key)
+                    if fi is not None and fi.kind in ('getter', 'setter') and fi.may_raise:
+                        return True
+        return False
+
+    def self_call(self, name, args, env, node, kind='method', bind_name=None):
+        """Call of member `name` of self -> (binds, code, type)."""
+        o = self.obj
+        if o is None or not self.cur.get('obj'):
+            raise Unsupported("self outside an object-class method", node)
+        fi = o['members'].get(('set', name) if kind == 'setter' else name)
+        if fi is None:
+            raise Unsupported(f"self.{name}: unknown, unsupported or recursive member", node)
+        if fi.kind == 'static':
+            if kind != 'method':
+                raise Unsupported("static member used as property", node)
+            return self.call(fi, args, env, node)
+        if (kind == 'method') != (fi.kind == 'method'):
+            raise Unsupported(f"self.{name}: property/method mismatch", node)
+        if self.cur.get('in_loop'):
+            raise Unsupported("call of a member of self inside a loop", node)
+        binds, cs = self.call_args(fi, args, env, node)
+        code = f"{fi.name} ({o['pack']})" + ''.join(' ' + c for c in cs)
+        v = bind_name or self.fresh('c')
+        if fi.may_raise:
+            self.need_monadic(node)
+        return binds + [(v, code, 'SM' if fi.may_raise else 'S')], v, (fi.ret if fi.mutates is None else L)
+
     # -------------------------------------------------------------------- functions
-    def function(self, node, pyname, coqname):
+    def function(self, node, pyname, coqname, monadic=None):
         if node.args.vararg or node.args.kwarg or node.args.kwonlyargs:
             raise Unsupported("varargs", node)
         env = Env()
@@ -363,7 +770,7 @@ class ModuleTranslator:
             for a in assigned_vars(body):
                 if a == p0:
                     mut = 0
-                elif isinstance(a, tuple) and a[2] == p0 and a[1] in self.funcs and self.funcs[a[1]].mutates is not None:
+                elif isinstance(a, tuple) and len(a) == 3 and a[2] == p0 and a[1] in self.funcs and self.funcs[a[1]].mutates is not None:
                     mut = 0
         ret_ann = node.returns
         returns_none = ret_ann is None and not contains(body, ast.Return) or (isinstance(ret_ann, ast.Constant) and ret_ann.value is None)
@@ -372,11 +779,17 @@ class ModuleTranslator:
             if not has_value_return:
                 returns_none = True
         may_raise = self.may_raise(body) or contains(body, ast.While)
+        if monadic is not None:
+            # object-class statics: decided by trial (NeedsMonadic) instead of the syntactic estimate
+            may_raise = monadic
+            if contains(body, ast.While):
+                raise Unsupported("while in a static method", node)
         needs_fuel = contains(body, ast.While) or self.calls_fuel(body)
         draws = self.uses_draws(body)
         self.loop_counter = 0
         self.cur = dict(monadic=may_raise, mut=(params[0][0] if mut is not None else None), ret=None,
-                        fuel=needs_fuel, name=coqname, method=None, draws=draws, returns_none=returns_none)
+                        fuel=needs_fuel, name=coqname, method=None, draws=draws, returns_none=returns_none,
+                        precise=(monadic is not None))
         if draws:
             env.set('$draws', L)
 
@@ -397,6 +810,9 @@ class ModuleTranslator:
         self.out.append(f"Definition {coqname} {ps} :=\n  {code}.")
         rt = self.cur['ret']
         self.funcs[pyname] = FuncInfo(coqname, params, rt, may_raise, mut, needs_fuel, draws)
+        nd = len(node.args.defaults)
+        if nd:
+            self.funcs[pyname].defaults = [None] * (len(params) - nd) + list(node.args.defaults)
 
     def note_ret(self, t):
         if self.cur['ret'] is None:
@@ -476,8 +892,15 @@ class ModuleTranslator:
                     raise Unsupported("bare return in value function", s)
                 v = vname(self.cur['mut']) if self.cur['mut'] else 'tt'
                 self.note_ret(L if self.cur['mut'] else U)
-                return self.wrap_ret(v)
+                return self.ret_code(v)
             binds, code, ty = self.expr(s.value, env)
+            if self.cur.get('obj'):
+                if self.cur['mut']:
+                    raise Unsupported("value return from in-place method", s)
+                if _self_field(s.value) and ty == L and self.obj['kinds'].get(s.value.attr) != 'memoryview':
+                    raise Unsupported("returns an alias of a mutable field", s)
+                self.note_ret(ty)
+                return self.emit_binds(binds, self.ret_code(code))
             if self.cur.get('method'):
                 self.note_ret(ty)
                 return self.emit_binds(binds, f"({self.cur['pack'](env)}, {code})")
@@ -487,7 +910,13 @@ class ModuleTranslator:
             return self.emit_binds(binds, self.wrap_ret(code))
         if isinstance(s, ast.Raise):
             if not self.cur['monadic']:
+                if self.cur.get('precise'):
+                    raise NeedsMonadic("raise", s)
                 raise Unsupported("raise in non-monadic function", s)
+            if self.cur.get('obj'):
+                if self.cur.get('noexit'):
+                    raise Unsupported("raise inside a joined branch or loop body", s)
+                return f"({self.obj['pack']}, Err {self.exc_name(s)})"
             return f"Err {self.exc_name(s)}"
         if isinstance(s, ast.If):
             return self.if_stmt(s, rest, env, k)
@@ -519,21 +948,44 @@ class ModuleTranslator:
     def emit_binds(self, binds, body):
         code = body
         for name, c, monadic in reversed(binds):
-            if monadic:
+            if monadic == 'S':
+                # member of self that cannot raise: (self', value)
+                code = f"let '({self.obj['pack']}, {name}) := {c} in\n  {code}"
+            elif monadic == 'SM':
+                # member of self that can raise: (self', res value); on Err the callee's state is kept
+                self.need_monadic()
+                pk = self.obj['pack']
+                code = (f"match {c} with\n  | ({pk}, Err e_) => ({pk}, Err e_)\n"
+                        f"  | ({pk}, Ok {name}) =>\n  {code}\n  end")
+            elif monadic and self.cur.get('obj'):
+                self.need_monadic()
+                code = (f"match {c} with\n  | Err e_ => ({self.obj['pack']}, Err e_)\n"
+                        f"  | Ok {name} =>\n  {code}\n  end")
+            elif monadic:
+                self.need_monadic()
                 code = f"do {name} <- {c};\n  {code}"
             else:
                 code = f"let {name} := {c} in\n  {code}"
         return code
 
     def assign(self, target, value, env, cont, node):
+        if _self_field(target) and self.cur.get('obj') and ('self.' + target.attr) not in env:
+            # property setter:  self.p = v
+            binds, _, _ = self.self_call(target.attr, [value], env, node, kind='setter', bind_name='_')
+            return self.emit_binds(binds, cont(env))
         binds, code, ty = self.expr(value, env)
+        if (self.obj and ty == L and (isinstance(value, ast.Name) or _self_field(value))
+                and not isinstance(target, ast.Subscript)):
+            raise Unsupported("assignment aliases a sequence object", node)
         if isinstance(target, ast.Name):
+            if target.id == 'self' or target.id.startswith('self_'):
+                raise Unsupported("local variable name", node)
             env2 = env.copy()
             if target.id in env and env[target.id] != ty:
                 raise Unsupported(f"variable {target.id} changes type {env[target.id]} -> {ty}", node)
             env2.set(target.id, ty)
             return self.emit_binds(binds, f"let {vname(target.id)} := {code} in\n  {cont(env2)}")
-        if isinstance(target, ast.Attribute) and isinstance(target.value, ast.Name) and target.value.id == 'self' and self.cur.get('method'):
+        if isinstance(target, ast.Attribute) and isinstance(target.value, ast.Name) and target.value.id == 'self' and (self.cur.get('method') or self.cur.get('obj')):
             key = 'self.' + target.attr
             if key not in env:
                 raise Unsupported(f"unknown field {key}", node)
@@ -550,15 +1002,66 @@ class ModuleTranslator:
                     if ty != L:
                         raise Unsupported("slice assignment of non-list", node)
                     return self.emit_binds(binds, f"let {vname(arr)} := {code} in\n  {cont(env)}")
+                if sl.step is None and ty == L and self.obj:
+                    # arr[lo:hi] = v   (bounds >= 0; the length may change)
+                    lb, lc = [], "0"
+                    if sl.lower is not None:
+                        lb, lc, lt = self.expr(sl.lower, env)
+                        if lt != Z:
+                            raise Unsupported("slice bound type", node)
+                    ub, uc = [], f"(zlen {vname(arr)})"
+                    if sl.upper is not None:
+                        ub, uc, ut = self.expr(sl.upper, env)
+                        if ut != Z:
+                            raise Unsupported("slice bound type", node)
+                    self.needs_pystr = True
+                    self.note_side(node, f"slice assignment {arr}[{_src(sl.lower)}:{_src(sl.upper)}] = ..: bounds assumed >= 0")
+                    (binds, code), (lb, lc), (ub, uc) = self.seq([(binds, code), (lb, lc), (ub, uc)])
+                    return self.emit_binds(binds + lb + ub, f"let {vname(arr)} := slice_assign {vname(arr)} ({lc}) ({uc}) ({code}) in\n  {cont(env)}")
                 raise Unsupported("general slice assignment", node)
             ib, ic, it = self.expr(target.slice, env)
             if it != Z or ty != Z:
                 raise Unsupported("subscript assignment types", node)
+            self.note_side(node, f"{arr}[{_src(target.slice)}] = ..: index assumed in range(len({arr}))")
+            (binds, code), (ib, ic) = self.seq([(binds, code), (ib, ic)])
             return self.emit_binds(binds + ib, f"let {vname(arr)} := zset {vname(arr)} ({ic}) ({code}) in\n  {cont(env)}")
         raise Unsupported("assignment target", node)
 
     def expr_stmt(self, s, env, cont):
         c = s.value
+        if isinstance(c, ast.Call) and self.cur.get('obj') and not c.keywords:
+            f = c.func
+            # self.<bytearray field>.append(v) / .extend(bs)
+            if isinstance(f, ast.Attribute) and _self_field(f.value) and f.attr in ('append', 'extend') and len(c.args) == 1:
+                key = 'self.' + f.value.attr
+                if key not in env or env[key] != L or self.obj['kinds'].get(f.value.attr) != 'bytearray':
+                    raise Unsupported("append/extend on a non-bytearray field", s)
+                b, code, t = self.expr(c.args[0], env)
+                self.needs_pystr = True
+                if f.attr == 'append':
+                    if t != Z:
+                        raise Unsupported("append of non-int", s)
+                    return self.emit_binds(b + [(vname(key), f"bytearray_append {vname(key)} ({code})", True)], cont(env))
+                if t != L:
+                    raise Unsupported("extend with non-sequence", s)
+                return self.emit_binds(b, f"let {vname(key)} := ({vname(key)} ++ {code}) in\n  {cont(env)}")
+            # self.m(args) as a statement: result dropped, except that an in-place mutated argument is rebound
+            if _self_field(f):
+                fi = self.obj['members'].get(f.attr)
+                if fi is None:
+                    raise Unsupported(f"self.{f.attr}: unknown, unsupported or recursive member", s)
+                bind_name = '_'
+                if fi.mutates is not None:
+                    if len(c.args) <= fi.mutates or not isinstance(c.args[fi.mutates], ast.Name) or c.args[fi.mutates].id not in env:
+                        raise Unsupported("in-place argument must be a local variable", s)
+                    bind_name = vname(c.args[fi.mutates].id)
+                if fi.kind == 'static':
+                    binds, code, ty = self.call(fi, c.args, env, c)
+                    if fi.mutates is not None:
+                        return self.emit_binds(binds, f"let {bind_name} := {code} in\n  {cont(env)}")
+                    return self.emit_binds(binds, cont(env))
+                binds, code, ty = self.self_call(f.attr, c.args, env, c, bind_name=bind_name)
+                return self.emit_binds(binds, cont(env))
         if isinstance(c, ast.Call):
             # x.reverse()
             if isinstance(c.func, ast.Attribute) and isinstance(c.func.value, ast.Name) and c.func.attr == 'reverse' and not c.args:
@@ -574,17 +1077,65 @@ class ModuleTranslator:
                     return self.emit_binds(binds, f"let {vname(x)} := {code} in\n  {cont(env)}")
         raise Unsupported("expression statement", s)
 
+    def none_test(self, test, env):
+        """`x is None` / `x is not None` on an Optional variable -> (x, is_none_in_then_branch)."""
+        if (isinstance(test, ast.Compare) and len(test.ops) == 1 and isinstance(test.ops[0], (ast.Is, ast.IsNot))
+                and isinstance(test.left, ast.Name) and isinstance(test.comparators[0], ast.Constant)
+                and test.comparators[0].value is None and test.left.id in env
+                and isinstance(env[test.left.id], tuple) and env[test.left.id][0] == 'opt'):
+            return test.left.id, isinstance(test.ops[0], ast.Is)
+        return None
+
+    def inplace_target(self, a):
+        """assigned_vars entry ('maybe', f, x[, i]) -> x when f mutates that argument in place, else None."""
+        fn = a[1]
+        if fn.startswith('self.'):
+            fi = self.obj['members'].get(fn[5:]) if self.obj else None
+            if fi is not None and fi.mutates is not None and fi.mutates == a[3]:
+                return a[2]
+            return None
+        if len(a) == 3 and fn in self.funcs and self.funcs[fn].mutates is not None:
+            return a[2]
+        return None
+
     def if_stmt(self, s, rest, env, k):
-        cb, cc, ct = self.expr(s.test, env)
-        cc = self.as_bool(cc, ct, s.test)
+        nt = self.none_test(s.test, env)
+        if nt:
+            # Optional refinement: in the None branch the variable is unusable until assigned; in the other
+            # branch it is rebound to the payload
+            x, then_is_none = nt
+            cb = []
+            env_some = env.copy()
+            env_some.set(x, env[x][1])
+            env_none = env.copy()
+            del env_none.d[x]
+            env_b0, env_o0 = (env_none, env_some) if then_is_none else (env_some, env_none)
+
+            def mk_if(bcode, ocode):
+                nc, sc = (bcode, ocode) if then_is_none else (ocode, bcode)
+                return f"match {vname(x)} with\n  | None => {nc}\n  | Some {vname(x)} => {sc}\n  end"
+        else:
+            cb, cc, ct = self.expr(s.test, env)
+            cc = self.as_bool(cc, ct, s.test)
+            env_b0, env_o0 = env, env
+
+            def mk_if(bcode, ocode):
+                return f"if {cc} then {bcode} else {ocode}"
         body, orelse = s.body, s.orelse
         exits = contains(body + orelse, (ast.Return, ast.Raise, ast.Break), stop_at_loops=False)
+        if not exits and self.cur.get('obj') and self.stmts_may_raise(body + orelse):
+            exits = True        # an exception leaves the method: treat like a branch that may exit
         if not exits:
             mod = [a for a in assigned_vars(body + orelse) if not isinstance(a, tuple)]
             # include in-place call targets
             for a in assigned_vars(body + orelse):
-                if isinstance(a, tuple) and a[1] in self.funcs and self.funcs[a[1]].mutates is not None and a[2] not in mod:
+                if isinstance(a, tuple) and self.inplace_target(a) is not None and a[2] not in mod:
                     mod.append(a[2])
+            if self.cur.get('obj') and self.self_effects(body + orelse):
+                # a member of self is called in a branch: every field may change
+                for f_, _ in self.obj['fields']:
+                    if 'self.' + f_ not in mod:
+                        mod.append('self.' + f_)
             live = [m for m in mod if m in env]
             # variables first assigned inside a branch must be assigned in both to be joined
             new_both = [m for m in mod if m not in env and m in assigned_vars(body) and m in assigned_vars(orelse)]
@@ -593,7 +1144,7 @@ class ModuleTranslator:
                 return self.emit_binds(cb, self.stmts(rest, env, k))
             tup = self.tuple_of([vname(m) for m in joined])
             # translate the branches
-            env_b, env_o = env.copy(), env.copy()
+            env_b, env_o = env_b0.copy(), env_o0.copy()
             types = {}
 
             def branch_end(which):
@@ -606,20 +1157,22 @@ class ModuleTranslator:
                             raise Unsupported(f"variable {m} has different types in branches", s)
                     return tup
                 return f
+            self.cur['noexit'] = self.cur.get('noexit', 0) + 1
             bcode = self.stmts(body, env_b, branch_end('b'))
             ocode = self.stmts(orelse, env_o, branch_end('o'))
+            self.cur['noexit'] -= 1
             env2 = env.copy()
             for m in joined:
                 env2.set(m, types[m])
             pat = self.tuple_pat([vname(m) for m in joined])
-            return self.emit_binds(cb, f"let {pat} := (if {cc} then {bcode} else {ocode}) in\n  {self.stmts(rest, env2, k)}")
+            return self.emit_binds(cb, f"let {pat} := ({mk_if(bcode, ocode)}) in\n  {self.stmts(rest, env2, k)}")
         # branches may exit: duplicate the continuation where needed
         if contains(body + orelse, ast.Break, stop_at_loops=True) and not self.cur.get('in_loop'):
             raise Unsupported("break outside loop", s)
         kk = lambda env_: self.stmts(rest, env_, k)
-        bcode = self.stmts(body, env.copy(), kk)
-        ocode = self.stmts(orelse, env.copy(), kk)
-        return self.emit_binds(cb, f"if {cc} then ({bcode}) else ({ocode})")
+        bcode = self.stmts(body, env_b0.copy(), kk)
+        ocode = self.stmts(orelse, env_o0.copy(), kk)
+        return self.emit_binds(cb, mk_if(f"({bcode})", f"({ocode})"))
 
     def tuple_of(self, names):
         return names[0] if len(names) == 1 else '(' + ', '.join(names) + ')'
@@ -637,7 +1190,7 @@ class ModuleTranslator:
         mod = []
         for a in assigned_vars(body):
             if isinstance(a, tuple):
-                if a[1] in self.funcs and self.funcs[a[1]].mutates is not None:
+                if self.inplace_target(a) is not None:
                     a = a[2]
                 else:
                     continue
@@ -690,6 +1243,7 @@ class ModuleTranslator:
         env_b.set(i, Z)
         saved = dict(self.cur)
         self.cur['in_loop'] = True
+        self.cur['noexit'] = self.cur.get('noexit', 0) + 1
         self.cur['loop_state'] = state
         self.cur['loop_has_ret'] = has_ret
         self.cur['loop_ret_ty'] = None
@@ -702,6 +1256,7 @@ class ModuleTranslator:
         body_code = self.loop_body(s.body, env_b, end_body, tup, has_break, has_ret)
         ret_ty = self.cur.get('loop_ret_ty')
         outer_in_loop = saved.get('in_loop')
+        self.cur['noexit'] -= 1
         self.cur['in_loop'] = outer_in_loop
         self.cur['loop_state'] = saved.get('loop_state')
         self.cur['loop_has_ret'] = saved.get('loop_has_ret')
@@ -745,7 +1300,7 @@ class ModuleTranslator:
             self.note_ret(ret_ty or Z)
             if self.cur.get('method'):
                 raise Unsupported("return inside loop in method", s)
-            after = f"match ret_ with Some r_ => {self.wrap_ret('r_')} | None =>\n  {after} end"
+            after = f"match ret_ with Some r_ => {self.ret_code('r_')} | None =>\n  {after} end"
         return self.emit_binds(binds, f"let {pat} := {call} in\n  {after}")
 
     def loop_body(self, ss, env, k, tup, has_break, has_ret):
@@ -778,6 +1333,8 @@ class ModuleTranslator:
     def while_stmt(self, s, env, cont):
         if s.orelse:
             raise Unsupported("while-else", s)
+        if self.cur.get('obj') or self.cur.get('precise'):
+            raise Unsupported("while loop in a class member", s)
         if contains(s.body, (ast.Raise, ast.Break, ast.Return, ast.Continue)):
             raise Unsupported("exit inside while", s)
         mod = self.loop_state(s.body, env)
@@ -826,6 +1383,8 @@ class ModuleTranslator:
         if isinstance(e, ast.Attribute):
             if isinstance(e.value, ast.Name) and e.value.id == 'self' and ('self.' + e.attr) in env:
                 return [], vname('self.' + e.attr), env['self.' + e.attr]
+            if _self_field(e) and self.cur.get('obj'):
+                return self.self_call(e.attr, [], env, e, kind='getter')
             # obj.value for abstracted objects
             b, c, t = self.expr(e.value, env)
             if isinstance(t, tuple) and t[0] == 'obj':
@@ -844,7 +1403,14 @@ class ModuleTranslator:
             # int(a / b)
             lb, lc, lt = self.expr(e.left, env)
             rb, rc, rt = self.expr(e.right, env)
+            (lb, lc), (rb, rc) = self.seq([(lb, lc), (rb, rc)])
             ops = {ast.Add: '+', ast.Sub: '-', ast.Mult: '*', ast.FloorDiv: '/', ast.Mod: 'mod'}
+            if (lt == L and rt == Z and isinstance(e.op, ast.Mult) and isinstance(e.left, ast.List)
+                    and len(e.left.elts) == 1 and not lb):
+                # [c] * n : n copies of c (none when n <= 0)
+                return rb, f"(zrepeat {lc[1:-1]} {rc})", L
+            if lt == L and rt == L and isinstance(e.op, ast.Add) and self.obj:
+                return lb + rb, f"({lc} ++ {rc})", L
             if lt == Z and rt == Z:
                 for k, v in ops.items():
                     if isinstance(e.op, k):
@@ -867,8 +1433,8 @@ class ModuleTranslator:
         if isinstance(e, ast.Compare):
             binds = []
             items = []
-            for x in [e.left] + e.comparators:
-                b, c, t = self.expr(x, env)
+            parts_ = [self.expr(x, env) for x in [e.left] + e.comparators]
+            for (b, c), (_, _, t) in zip(self.seq([(b_, c_) for b_, c_, _ in parts_]), parts_):
                 binds += b
                 items.append((c, t))
             conj = []
@@ -897,6 +1463,9 @@ class ModuleTranslator:
             b, c, t = self.expr(e.value, env)
             if t != L:
                 raise Unsupported("subscript of non-list", e)
+            for x_ in ([e.slice.lower, e.slice.upper] if isinstance(e.slice, ast.Slice) else [e.slice]):
+                if _neg_literal(x_):
+                    raise Unsupported("negative literal index (wraparound is not modelled)", e)
             if isinstance(e.slice, ast.Slice):
                 sl = e.slice
                 if sl.step is not None:
@@ -908,23 +1477,48 @@ class ModuleTranslator:
                     ub, uc = [], f"(zlen {c})"
                 else:
                     ub, uc, ut = self.expr(sl.upper, env)
+                if sl.lower is not None or sl.upper is not None:
+                    self.note_side(e, f"slice {_src(e)}: bounds assumed >= 0")
+                if sl.upper is not None:
+                    (b, c), (lb, lc), (ub, uc) = self.seq([(b, c), (lb, lc), (ub, uc)])
+                else:
+                    (b, c), (lb, lc) = self.seq([(b, c), (lb, lc)])
+                    uc = f"(zlen {c})"
                 return b + lb + ub, f"(slice {c} ({lc}) ({uc}))", L
             ib, ic, it = self.expr(e.slice, env)
             if it != Z:
                 raise Unsupported("non-int index", e)
+            self.note_side(e, f"index {_src(e)}: assumed in range(len({_src(e.value)}))")
+            (b, c), (ib, ic) = self.seq([(b, c), (ib, ic)])
             return b + ib, f"(zget {c} ({ic}))", Z
         if isinstance(e, ast.List):
-            binds, cs = [], []
+            binds, cs, parts_ = [], [], []
             for x in e.elts:
                 b, c, t = self.expr(x, env)
                 if t != Z:
                     raise Unsupported("list of non-int", e)
+                parts_.append((b, c))
+            for b, c in self.seq(parts_):
                 binds += b
                 cs.append(c)
             return binds, '[' + '; '.join(cs) + ']', L
         if isinstance(e, ast.Call):
             return self.call_expr(e, env)
         raise Unsupported(f"expression {type(e).__name__}", e)
+
+    def seq(self, parts):
+        """parts: [(binds, code)] of sub-expressions in evaluation order.  A call of a member of self may change
+        fields; a sub-expression evaluated BEFORE such a call that reads a field is snapshotted in a temporary,
+        so that it does not see the fields as rebound by the call."""
+        out = []
+        for i, (b, c) in enumerate(parts):
+            later_calls = any(k in ('S', 'SM') for bb, _ in parts[i + 1:] for _, _, k in bb)
+            if later_calls and any(x.startswith('v_self_') for x in _idents(c)):
+                t = self.fresh('t')
+                b = b + [(t, c, False)]
+                c = t
+            out.append((b, c))
+        return out
 
     def fresh(self, base='t'):
         self.loop_counter += 1
@@ -944,6 +1538,7 @@ class ModuleTranslator:
             if n in ('min', 'max') and len(e.args) == 2:
                 b1, c1, t1 = self.expr(e.args[0], env)
                 b2, c2, t2 = self.expr(e.args[1], env)
+                (b1, c1), (b2, c2) = self.seq([(b1, c1), (b2, c2)])
                 if t1 != Z or t2 != Z:
                     raise Unsupported("min/max of non-int", e)
                 return b1 + b2, f"(Z.{n} {c1} {c2})", Z
@@ -953,9 +1548,26 @@ class ModuleTranslator:
                     raise Unsupported("bytes() of non-list", e)
                 v = self.fresh('bs')
                 return b + [(v, f"py_bytes {c}", True)], v, L
+            if n == 'bytearray' and len(e.args) == 0 and self.obj:
+                return [], '[]', L
+            if n == 'memoryview' and len(e.args) == 1 and self.obj:
+                b, c, t = self.expr(e.args[0], env)
+                if t != L:
+                    raise Unsupported("memoryview() of non-bytes", e)
+                return b, c, L
+            if (n == 'bytearray' and len(e.args) == 3 and self.obj
+                    and [isinstance(a_, ast.Constant) and a_.value for a_ in e.args[1:]] == ['windows-1252', 'replace']):
+                b, c, t = self.expr(e.args[0], env)
+                if t != L:
+                    raise Unsupported("bytearray(str, ..) of non-str", e)
+                self.needs_pystr = True
+                return b, f"(cp_encode {c})", L
             if n == 'bytearray' and len(e.args) == 1:
+                if isinstance(e.args[0], (ast.List, ast.BinOp)) and not _const_bytes(e.args[0]):
+                    raise Unsupported("bytearray() of a list that is not made of byte constants", e)
                 b, c, t = self.expr(e.args[0], env)
                 if t == Z:
+                    self.note_side(e, f"{_src(e)}: size assumed >= 0")
                     return b, f"(zrepeat 0 {c})", L
                 if t == L:
                     return b, c, L
@@ -977,7 +1589,12 @@ class ModuleTranslator:
                 if len(cs) != CONSTRUCTORS[n]:
                     raise Unsupported("constructor arity", e)
                 return binds, (cs[0] if len(cs) == 1 else '(' + ', '.join(cs) + ')'), tuple([Z] * len(cs)) if len(cs) > 1 else Z
+            if self.obj and n == self.obj['cls'] and self.cur.get('obj'):
+                # constructing a new instance
+                return self.call(self.obj['init'], e.args, env, e)
             if n in self.funcs:
+                if self.obj and n not in self.imported:
+                    raise Unsupported(f"function {n} is not imported by this module", e)
                 return self.call(self.funcs[n], e.args, env, e)
             raise Unsupported(f"call of unknown function {n}", e)
         if isinstance(f, ast.Attribute):
@@ -986,18 +1603,62 @@ class ModuleTranslator:
                 b2, c2, t2 = self.expr(e.args[1], env)
                 v = self.fresh('r')
                 return b1 + b2 + [(f"({v}, v_draws)", f"randrange ({c1}) ({c2}) v_draws", True)], v, Z
+            if _self_field(f) and self.obj:
+                if self.cur.get('obj'):
+                    return self.self_call(f.attr, e.args, env, e)
+                raise Unsupported("self in a static method", e)
+            if self.obj and isinstance(f.value, ast.Name) and f.value.id == self.obj['cls']:
+                fi = self.obj['members'].get(f.attr)
+                if fi is None or fi.kind != 'static':
+                    raise Unsupported(f"{f.value.id}.{f.attr}: not a translated static method", e)
+                return self.call(fi, e.args, env, e)
+            if self.obj and f.attr in ('decode', 'find', 'copy'):
+                b, c, t = self.expr(f.value, env)
+                if t != L:
+                    raise Unsupported(f".{f.attr} on a non-sequence", e)
+                if f.attr == 'copy' and not e.args:
+                    return b, c, L
+                if (f.attr == 'decode' and len(e.args) == 2
+                        and [isinstance(a_, ast.Constant) and a_.value for a_ in e.args] == ['windows-1252', 'replace']):
+                    self.needs_pystr = True
+                    return b, f"(cp_decode {c})", L
+                if f.attr == 'find' and len(e.args) == 1:
+                    a_ = e.args[0]
+                    # x.find(bytes([c])) with a byte constant c
+                    if (isinstance(a_, ast.Call) and isinstance(a_.func, ast.Name) and a_.func.id == 'bytes'
+                            and 'bytes' not in env and len(a_.args) == 1 and not a_.keywords
+                            and isinstance(a_.args[0], ast.List) and len(a_.args[0].elts) == 1 and _const_bytes(a_.args[0])):
+                        self.needs_pystr = True
+                        return b, f"(find_byte {c} {a_.args[0].elts[0].value})", Z
         raise Unsupported("call", e)
 
-    def call(self, fi, args, env, node):
-        if len(args) != len(fi.params):
+    def call_args(self, fi, args, env, node):
+        defaults = fi.defaults or [None] * len(fi.params)
+        if len(args) > len(fi.params) or any(d is None for d in defaults[len(args):]):
             raise Unsupported("arity (defaults unsupported)", node)
-        binds, cs = [], []
-        for a, (pn, pt) in zip(args, fi.params):
-            b, c, t = self.expr(a, env)
+        binds, cs, parts_ = [], [], []
+        for i, (pn, pt) in enumerate(fi.params):
+            if i < len(args):
+                b, c, t = self.expr(args[i], env)
+            else:
+                b, c, t = self.expr(defaults[i], Env())     # defaults are evaluated at definition time
+                if b:
+                    raise Unsupported("effectful default", node)
+            if isinstance(pt, tuple) and pt[0] == 'opt' and t != pt:
+                if t == U and c == 'tt':
+                    c, t = 'None', pt
+                elif t == pt[1]:
+                    c, t = f"(Some {c})", pt
             if t != pt:
                 raise Unsupported(f"argument type {t} for parameter {pn}:{pt}", node)
+            parts_.append((b, c))
+        for b, c in self.seq(parts_):
             binds += b
             cs.append(f"({c})" if ' ' in c and not c.startswith('(') else c)
+        return binds, cs
+
+    def call(self, fi, args, env, node):
+        binds, cs = self.call_args(fi, args, env, node)
         code = fi.name + (' fuel' if fi.needs_fuel else '') + ' ' + ' '.join(cs)
         if fi.draws:
             code += ' v_draws'
@@ -1013,11 +1674,40 @@ class ModuleTranslator:
     def render(self, requires=()):
         hdr = ["(* GENERATED by tools/py2coq.py from %s -- do not edit *)" % os.path.basename(self.path),
                "From EO Require Import Prelude.Py."]
+        if self.needs_pystr:
+            hdr.append("From EO Require Import Prelude.PyStr.")
         for r in requires:
             hdr.append(f"From EO Require Import Gen.{r}.")
         hdr.append("Open Scope Z_scope.")
         hdr.append("")
+        if self.side and self.needs_pystr:
+            hdr.append("(* Side conditions under which the definitions below follow CPython (Prelude zget/zset/slice do not")
+            hdr.append("   model negative-index wraparound or IndexError; bytearray(n) needs n >= 0):")
+            for unit, line, text in self.side:
+                hdr.append(f"     {unit} (line {line}): {text}".replace('*)', '* )').replace('(*', '( *'))
+            hdr.append("*)")
+            hdr.append("")
         return '\n'.join(hdr) + '\n' + '\n\n'.join(self.out) + '\n'
+
+
+def _neg_literal(x):
+    if isinstance(x, ast.UnaryOp) and isinstance(x.op, ast.USub):
+        x = x.operand
+        return isinstance(x, ast.Constant) and isinstance(x.value, int) and x.value > 0
+    return isinstance(x, ast.Constant) and isinstance(x.value, int) and not isinstance(x.value, bool) and x.value < 0
+
+
+def _src(node):
+    return '' if node is None else ast.unparse(node)
+
+
+def _const_bytes(e):
+    """[c1, .., cn] or [c] * n with every c a constant in range(256)."""
+    if isinstance(e, ast.BinOp) and isinstance(e.op, ast.Mult):
+        e = e.left
+    return (isinstance(e, ast.List)
+            and all(isinstance(x, ast.Constant) and isinstance(x.value, int) and not isinstance(x.value, bool)
+                    and 0 <= x.value <= 255 for x in e.elts))
 
 
 def _idents(code):
@@ -1028,6 +1718,8 @@ def _idents(code):
 # constructors treated as tuples (sequence_start): name -> arity
 CONSTRUCTORS = {'AccountReplySequenceStart': 1, 'InitSequenceStart': 3, 'PingSequenceStart': 3, 'SimpleSequenceStart': 1}
 SIMPLE_STATE_CLASSES = {'PacketSequencer'}
+# classes translated member by member, with state threading (obj_class_unit)
+OBJ_CLASSES = {'EoReader', 'EoWriter'}
 # parameters that are abstracted objects: (class, param) -> type
 FIELD_PARAM_TYPES = {('PacketSequencer', 'start'): ('abs', 'SequenceStart')}
 
@@ -1035,6 +1727,10 @@ FIELD_PARAM_TYPES = {('PacketSequencer', 'start'): ('abs', 'SequenceStart')}
 def coq_ty(t):  # noqa: F811  (extended with abstract objects)
     if isinstance(t, tuple) and t and t[0] == 'abs':
         return 'Z'
+    if isinstance(t, tuple) and t and t[0] == 'cls':
+        return t[1] + '_st'
+    if isinstance(t, tuple) and t and t[0] == 'opt':
+        return '(option ' + coq_ty(t[1]) + ')'
     if isinstance(t, tuple):
         return '(' + ' * '.join(coq_ty(x) for x in t) + ')'
     return t
@@ -1050,11 +1746,14 @@ UNITS = [
     ('eolib/encrypt/encryption_utils.py', 'G_encryption_utils', []),
     ('eolib/packet/sequence_start.py', 'G_sequence_start', ['G_eo_numeric_limits']),
     ('eolib/packet/packet_sequencer.py', 'G_packet_sequencer', []),
+    ('eolib/data/eo_reader.py', 'G_eo_reader', ['G_number_encoding_utils', 'G_string_encoding_utils']),
+    ('eolib/data/eo_writer.py', 'G_eo_writer', ['G_eo_numeric_limits', 'G_number_encoding_utils', 'G_string_encoding_utils']),
 ]
 
 
-def translate_all(src_root, out_dir, only_modules=None):
-    """Translate every unit; returns {module: {unit: status}}.  Files are rewritten only on change."""
+def translate_all(src_root, out_dir, only_modules=None, side=None):
+    """Translate every unit; returns {module: {unit: status}}.  Files are rewritten only on change.
+    side: optional dict filled with {module: [(unit, line, side condition)]}."""
     report = {}
     known, consts = {}, {}
     os.makedirs(out_dir, exist_ok=True)
@@ -1064,6 +1763,8 @@ def translate_all(src_root, out_dir, only_modules=None):
             mt = ModuleTranslator(path, mod, known, consts).translate()
             text = mt.render(req)
             report[mod] = mt.units
+            if side is not None:
+                side[mod] = list(mt.side)
             known.update(mt.funcs)
             consts.update(mt.consts)
         except (SyntaxError, OSError, Unsupported) as e:
